@@ -118,7 +118,7 @@ fn run_case(ctx: &mut Ctx, scn: &Scn, sched_name: &str, tag: &str) -> Option<u64
     let mut first: Option<(u64, u64)> = None;
     let mut inv_fail: Vec<String> = vec![];
     let ready = built.ready;
-    let res = ctx.guard(|| run_stepped(&mut vm, ready, 200_000, |vm, stop| {
+    let res = ctx.guard(|| run_stepped(&mut vm, ready, 50_000, |vm, stop| {
         let (cg, gg) = (reg(vm, RegId::CGAS), reg(vm, RegId::GGAS));
         let saved = saved_cgas(vm);
         if first.is_none() { first = Some((cg, gg)); }
